@@ -208,6 +208,75 @@ def h_cdda(f0: int, df: int, tail: int, last: int, cut: int, k: int) -> int:
     return 1
 
 
+# ------------------------------------------------------------------ whole AKAI image cut at a solver-chosen position (decision tree; concrete per path)
+def h_image(sector: int, off_i: int, order: int) -> int:
+    """
+    pre: 0 <= sector <= 8 and 0 <= off_i <= 7 and 0 <= order <= 1
+    post: _ == 1
+    """
+    CNT[0] += 1
+    from vf.util import conc, untraced
+    sector, off_i, order = conc(sector, 0, 8), conc(off_i, 0, 7), conc(order, 0, 1)
+    with untraced():
+        import io
+        import struct
+        from vf import akaiw
+        from vf.props import c16
+        import smpl_extract.actions as actions
+
+        def words(n, seed):
+            return b"".join(struct.pack("<h", ((i * 7 + seed * 1000) % 60000) - 30000) for i in range(n))
+        sf = akaiw.sample_file
+        # directory in sector 3; AAA (2 sectors: 4,5 or reversed), BBB (sector 6), CCC -L / CCC -R (7, 8)
+        files = [("AAA", 0x73, sf("AAA", words(6000, 1)), [1, 0] if order else None), ("BBB", 0xf3, sf("BBB", words(60, 2)), None),
+                 ("CCC -L", 0x73, sf("CCC -L", words(300, 3)), None), ("CCC -R", 0x73, sf("CCC -R", words(300, 4)), None)]
+        img = akaiw.partition([("VOL", files, None)], size_sectors=16)
+        full = dict(c16._do(actions.determine_image_type(io.BufferedReader(io.BytesIO(img))), ("export", None))[1])
+        cut = sector * 8192 + (0, 1, 50, 139, 140, 141, 4096, 8191)[off_i]
+        try:
+            image = actions.determine_image_type(io.BufferedReader(io.BytesIO(img[:cut])))
+            got = dict(c16._do(image, ("export", None))[1])
+        except Exception:
+            got = None                                   # export ended with an error: nothing (more) is reported ...
+        # ... but a file whose directory entry, header and data sectors all lie before the cut must have been exported complete
+        extent = {"out/A/VOL/AAA.wav": 6, "out/A/VOL/BBB.wav": 7, "out/A/VOL/CCC.wav": 9}      # first sector after the file's data
+        for path, end_sector in extent.items():
+            if cut >= end_sector * 8192:
+                if got is None or got.get(path) != full[path]:
+                    return 0
+        if got is None:
+            return 1
+        for path, data in got.items():
+            ref = full.get(path)
+            if ref is None:
+                # the lone half of a stereo pair whose partner is unreadable is exported under its own name
+                if path in ("out/A/VOL/CCC -L.wav", "out/A/VOL/CCC -R.wav"):
+                    continue
+                return 0
+            try:
+                chunks = _riff(data)
+                rchunks = _riff(ref)
+            except ValueError:
+                return 0
+            if not rchunks[-1][1].startswith(chunks[-1][1]) or len(chunks[-1][1]) % 2 != 0:
+                return 0                                 # PCM is a prefix of the complete image's PCM, whole frames
+    return 1
+
+
+def _riff(data):
+    import struct
+    if len(data) < 12 or data[:4] != b"RIFF" or data[8:12] != b"WAVE" or struct.unpack("<I", data[4:8])[0] != len(data) - 8:
+        raise ValueError("bad RIFF header")
+    pos, out = 12, []
+    while pos < len(data):
+        size = struct.unpack("<I", data[pos + 4:pos + 8])[0]
+        if pos + 8 + size > len(data):
+            raise ValueError("chunk overruns file")
+        out.append((data[pos:pos + 4], data[pos + 8:pos + 8 + size]))
+        pos += 8 + size
+    return out
+
+
 RUNS = c01.RUNS + ["smpl_extract.util.sector:SectorStream._read", "smpl_extract.transcoder:PipelineTranscoder.__next__",
                    "smpl_extract.transcoder:decode_frame", "smpl_extract.transcoder:pad_channels",
                    "smpl_extract.cdda.image:CompactDiskAudioImageAdapter.from_bin_cue", "smpl_extract.akai.image:AkaiImageParser._load_partitions"]
@@ -251,6 +320,9 @@ def obligations(tier, seed):
                           "2 clusters; forward and reversed window; cut anywhere", ["AbsFile/Spans", "NpShim"]))
     for last in (0, 1):
         obs.append(ob(f"C15.cdda/last={last}", "h_cdda", [f"last == {last}"], "cut position, track geometry, byte index", "tracks of 1..3 sectors, tail <= 5000", ["AbsFile/Spans"]))
+    for order in (0, 1):
+        obs.append(ob(f"C15.image/akai/order={order}", "h_image", [f"order == {order}"], "cut sector and offset inside it", "9 sectors x 8 offsets; volume of 3 samples incl. an L/R pair",
+                      ["independent AKAI writer", "in-memory export"]))
     for o in c13.obligations(tier, seed):
         if o["name"] == "C13.scan":
             obs.append(dict(o, name="C15.scan"))
